@@ -694,7 +694,12 @@ impl<T: Storage> RawNode<T> {
         self.commit_ready(rd);
         self.on_persist_ready(self.max_number);
         let mut light_rd = self.gen_light_ready();
-        if self.raft.state != StateRole::Leader && !light_rd.messages().is_empty() {
+        // A leader that applied its own removal between `ready` and `advance`
+        // stepped down there; what it had queued before is still a leader's.
+        if self.raft.state != StateRole::Leader
+            && self.prev_ss.raft_state != StateRole::Leader
+            && !light_rd.messages().is_empty()
+        {
             fatal!(self.raft.logger, "not leader but has new msg after advance");
         }
         // Set commit index if it's updated
